@@ -353,6 +353,70 @@ func c02Units(ctx *core.Ctx) []core.Unit {
 			}})
 		}
 	}
+	us = append(us, core.Unit{Name: "proofs produced by the prover API for inconsistent inputs (commitments of f, polynomials f')", Run: func(ctx *core.Ctx, r *core.Result) {
+		needRef()
+		c := conf()
+		polys := polyAlphabet(ctx.Seed)
+		type forge struct {
+			name string
+			zs   []int
+			real []namedPoly // committed polynomials
+			used []namedPoly // polynomials the prover computes with
+		}
+		zero, ramp, prf0, prf1, e5 := polys[0], polys[10], polys[12], polys[13], namedPoly{"e5", unitVec(5)}
+		rampAt7 := namedPoly{"ramp with f[7]:=0", append([]*big.Int(nil), ramp.V...)}
+		rampAt7.V[7] = bi(0)
+		cases := []forge{
+			{"claim y=0 at an otherwise unused index by proving with the zero polynomial", []int{7, 200}, []namedPoly{prf0, prf1}, []namedPoly{zero, prf1}},
+			{"claim y=0 at an otherwise unused index by zeroing one evaluation", []int{7, 200}, []namedPoly{ramp, prf1}, []namedPoly{rampAt7, prf1}},
+			{"claim y=0 on a single opening", []int{7}, []namedPoly{prf0}, []namedPoly{zero}},
+			{"another polynomial altogether", []int{3, 3}, []namedPoly{prf0, ramp}, []namedPoly{prf1, ramp}},
+			{"true zero evaluation at an unused index (honest)", []int{7, 200}, []namedPoly{e5, prf1}, []namedPoly{e5, prf1}},
+			{"true zero evaluations at two unused indices (honest)", []int{7, 9, 200}, []namedPoly{e5, e5, prf1}, []namedPoly{e5, e5, prf1}},
+			{"zero polynomial among others (honest)", []int{7, 200, 7}, []namedPoly{zero, prf1, zero}, []namedPoly{zero, prf1, zero}},
+		}
+		for _, fc := range cases {
+			sReal := stmt{label: "vt", zs: fc.zs, polys: fc.real}
+			isReal := sReal.build(c)
+			fsUsed := make([][]fr.Element, len(fc.used))
+			for i := range fc.used {
+				fsUsed[i] = frsFromBig(fc.used[i].V)
+			}
+			desc := "forged via CreateMultiProof(Cs of f, polynomials f'): " + fc.name
+			var proof *multiproof.MultiProof
+			var perr error
+			if !guard(r, "c02.panic", "CreateMultiProof", desc, func() {
+				proof, perr = multiproof.CreateMultiProof(common.NewTranscript("vt"), c, isReal.Cs, fsUsed, isReal.zs)
+			}) || perr != nil {
+				continue
+			}
+			t := tuple{label: "vt", D: proof.D, L: proof.IPA.L, R: proof.IPA.R, A: proof.IPA.A_scalar, zs: isReal.zs}
+			for i := range isReal.Cs {
+				t.Cs = append(t.Cs, *isReal.Cs[i])
+				t.ys = append(t.ys, fsUsed[i][fc.zs[i]]) // the value the forged proof claims
+			}
+			ok, err, ran := decideImpl(r, c, t, desc)
+			if !ran {
+				continue
+			}
+			acc, shape := decideRef(t)
+			r.Evals++
+			r.Nontrivial++
+			if ok != acc || (err != nil) != shape {
+				vio(r, "c02.agree", "CheckMultiProof", desc, fmt.Sprintf("reference verifier: accepted=%v", acc), fmt.Sprintf("accepted=%v err=%v", ok, err))
+			}
+			honest := true
+			for i := range fc.real {
+				if fc.real[i].Name != fc.used[i].Name {
+					honest = false
+				}
+			}
+			if ok != honest && acc == ok {
+				vio(r, "c02.reject", "CheckMultiProof", desc, fmt.Sprintf("accepted=%v", honest), fmt.Sprintf("accepted=%v (reference agrees)", ok))
+			}
+		}
+		r.Sample(map[string]interface{}{"case": cases[0].name, "expected": "rejected by the implementation and by the reference verifier"})
+	}})
 	us = append(us, core.Unit{Name: "many openings (n = 1025: more than 1024 powers of r) and the powers themselves", Run: func(ctx *core.Ctx, r *core.Result) {
 		needRef()
 		c := conf()
